@@ -1004,6 +1004,36 @@ func (hr *histRun) runPlan(limit time.Duration) bool {
 		}
 		hr.checkScheduleOrder(model)
 		return false
+	case "cancelled-rescheduled":
+		hr.do(c, 0, Op{Kind: opSchedule, Task: T, OffMs: 300})
+		hr.do(c, 0, Op{Kind: opCancel, Task: T})
+		hr.do(c, 0, Op{Kind: opSchedule, Task: T, OffMs: md})
+	case "zero-exposure":
+		// T is the head of the schedule (+10 s, never due within the history) and is
+		// withdrawn and re-scheduled again and again while a second client keeps waking
+		// the schedule handler (re-scheduling U, +1 h). T must never be started. Not
+		// deterministic: there is no hook inside Schedule between writing the time and
+		// removing the task from the lists.
+		stop := make(chan struct{})
+		done := make(chan struct{})
+		go func() {
+			defer close(done)
+			for i := 0; ; i++ {
+				select {
+				case <-stop:
+					return
+				default:
+				}
+				hr.do("plan2", 0, Op{Kind: opSchedule, Task: U, OffMs: 3600000 + i})
+			}
+		}()
+		for i := 0; i < 150 && !hr.abort.Load(); i++ {
+			hr.do(c, 0, Op{Kind: opSchedule, Task: T, OffMs: 10000})
+			hr.do(c, 0, Op{Kind: opUnsched, Task: T})
+		}
+		close(stop)
+		<-done
+		hr.do(c, 0, Op{Kind: opUnsched, Task: U})
 	case "same-instant":
 		// two tasks scheduled for the identical time value: both have to be started
 		hr.do(c, 0, Op{Kind: opSchedule, Task: T, OffMs: md})
@@ -1282,7 +1312,7 @@ func schedHandlerParked() bool {
 
 // checkStuck decides whether the schedule handler is stuck: nothing executes, both
 // queues are empty, no event since the last poll, yet the first entry of the schedule
-// is due (by more than 50 ms on the monotonic clock). The handler is then woken three
+// is due (by more than 50 ms on the monotonic clock). The handler is then woken eight
 // times (a Schedule call of the schedule sentinel sends the wake-up before it returns);
 // after each wake-up it must be seen parked in its select again (a goroutine parks in a
 // select only if no case is ready, so the wake-up has been consumed and the head of the
@@ -1313,8 +1343,15 @@ func (hr *histRun) checkStuck() bool {
 	}
 	seq := hr.log.now()
 	dec := hr.w.schedDecided.Load()
-	for round := 0; round < 3; round++ {
+	// (8 rounds, at least 250 ms apart: one unexplained occurrence of the 3-round
+	// version on the unchanged tree made the evidence demanded much stronger; a handler
+	// that is really stuck stays stuck)
+	for round := 0; round < 8; round++ {
 		hr.w.schedSentinel.Schedule(time.Now().Add(-time.Millisecond)) // wakes the handler
+		if _, _, _, _, listed := hr.w.schedSentinel.VerifTaskState(); !listed {
+			return false // the sentinel was not taken into the schedule: no wake-up was sent
+		}
+		time.Sleep(250 * time.Millisecond)
 		if !waitForAbort(&hr.abort, 2*time.Second, schedHandlerParked) {
 			return false
 		}
@@ -1322,13 +1359,21 @@ func (hr *histRun) checkStuck() bool {
 			return false
 		}
 	}
+	names, at := modules.VerifScheduleOrder()
+	var order []string
+	for i := range names {
+		order = append(order, fmt.Sprintf("%s@%.1fms", names[i], float64(rel(at[i]))/1e6))
+	}
+	dump := make([]byte, 1<<18)
+	dump = dump[:runtime.Stack(dump, true)]
+	hr.note("stuck diagnostics: now=%.1fms schedule=%v goroutines:\n%s", float64(rel(time.Now()))/1e6, order, string(dump))
 	tr := hr.byName[strings.SplitN(h0, "@", 2)[0]]
 	who := "a task"
 	if tr != nil {
 		who = fmt.Sprintf("task t%d", tr.idx)
 	}
 	hr.log.rec(Ev{K: "mark", Op: "stuck:schedule-handler-parked-with-due-head", Task: -1,
-		C: fmt.Sprintf("the first entry of the schedule (%s) is due for more than 50 ms, both queues are empty and nothing executes, but the schedule handler does not act on it: woken three times, it was each time found parked in its select again without any decision (modules.sched.decided) about any task", who)})
+		C: fmt.Sprintf("the first entry of the schedule (%s) is due for more than 50 ms, both queues are empty and nothing executes, but the schedule handler does not act on it: woken eight times at least 250 ms apart, it was each time found parked in its select again without any decision (modules.sched.decided) about any task", who)})
 	hr.setAbort(false, "the schedule handler is stuck with a due head entry")
 	return true
 }
